@@ -4,6 +4,7 @@ greedy shortcut.  Sibling computations of one class must agree on these argument
 from __future__ import annotations
 
 import ast
+import re
 from typing import Dict, List, Optional, Set, Tuple
 
 from sa.pm import Program, FuncInfo, ClassInfo, dotted, norm, calls_in, kwarg, walk_no_nested, AnalysisError
@@ -134,6 +135,19 @@ def whole_flow_shortcuts_rule(prog: Program, rep, RID: str, cname: str = "kFlowD
             rep.violation(RID, key, f"`{what}` is used under `{[('' if p else 'not ') + norm(t) for t, p in tests]}`, which does not ensure that {' and '.join(missing)}: "
                           "paths that are safe for (or a greedy decomposition of) the whole flow are not valid for the decompositions the model accepts "
                           "once edges are ignored - with safety as subpath constraints a feasible k becomes unsolvable", f.loc(c))
+        if what == "_get_solution_with_greedy":
+            # the greedy weights are not taken from a given weight set: the shortcut is taken only without one
+            n += 1
+            sup = [a for a in atoms if "solution_weights_superset" in a]
+            keyg = key + ":no-superset"
+            no_superset = any(B.implies(guard, B.atom(a)) for a in sup if "is None" in a or a.startswith("EQ0")) or \
+                any(B.implies(guard, B.mk_not(B.atom(a))) for a in sup if "is None" not in a and not a.startswith("EQ0"))
+            if no_superset:
+                rep.ok(RID, keyg, "the greedy shortcut is not taken when solution_weights_superset is given", f.loc(c))
+            else:
+                rep.violation(RID, keyg, "the greedy decomposition marks the model solved whether or not solution_weights_superset is given: with the default "
+                              "optimize_with_greedy the weights are not taken from the superset (s->a->t with flow 5, superset [2, 2]: solved with weights [5, 0], "
+                              "infeasible with greedy off)", f.loc(c))
         # the graph argument is the model's internal graph (the caller's graph carries node flows in node-weighted mode)
         g = kwarg(c, "G", 0) if what == "compute_flow_decomp_safe_paths" else None
         if g is not None:
@@ -177,3 +191,101 @@ def ignore_list_accumulates(prog: Program, rep, RID: str, name: str = "edges_to_
     if n == 0:
         raise AnalysisError(f"no constructor defines `{name}`")
     return n
+
+
+def node_expansion_length_rule(prog: Program, rep, RID: str) -> int:
+    """Sibling agreement: a class that takes `length_attr` and builds the node expansion passes it as `node_length_attr`
+    (then the expanded copies of the original edges get length 0 instead of the default 1 in length coverage)."""
+    n = 0
+    for cls in prog.all_classes():
+        init = cls.methods.get("__init__")
+        if init is None or "length_attr" not in [a.arg for a in init.node.args.args]:
+            continue
+        for c in calls_in(init.node):
+            if not (dotted(c.func) or "").endswith("NodeExpandedDiGraph"):
+                continue
+            n += 1
+            key = f"{cls.name}.__init__:NodeExpandedDiGraph(node_length_attr)@{c.lineno - init.node.lineno}"
+            v = kwarg(c, "node_length_attr")
+            if v is not None and norm(v) in ("length_attr", "self.length_attr"):
+                rep.ok(RID, key, "the node expansion gets the length attribute", init.loc(c))
+            else:
+                rep.violation(RID, key, f"{cls.name} accepts length_attr but builds `{norm(c)[:90]}` without node_length_attr: the expanded copies of the original edges have "
+                              "no length and count 1 in subpath_constraints_coverage_length, unlike in the other node-weighted DAG models and in the explicit expansion",
+                              init.loc(c))
+    if n < 6:
+        raise AnalysisError(f"node expansion with length attribute: only {n} constructions found")
+    return n
+
+
+def percentile_rules(prog: Program, rep, RID: str) -> int:
+    """Percentile options are statistics over the elements that count: the population excludes ignored elements (in node mode the
+    edges between expanded nodes, whatever attribute they carry), and a trusted set built from a percentile contains no edge of
+    flow 0 (an edge with flow 0 need not be on any walk, exactly as for the default trusted set)."""
+    n = 0
+    for cls in prog.all_classes():
+        init = cls.methods.get("__init__")
+        if init is None:
+            continue
+        defs = local_single_defs(init.node)
+        for c in calls_in(init.node):
+            if (dotted(c.func) or "").split(".")[-1] != "percentile" or not c.args:
+                continue
+            n += 1
+            pop = c.args[0]
+            if isinstance(pop, ast.Name):
+                # last definition before the call
+                cands = [st for st in walk_no_nested(init.node) if isinstance(st, ast.Assign) and any(isinstance(t, ast.Name) and t.id == pop.id for t in st.targets)
+                         and st.lineno < c.lineno]
+                pop = max(cands, key=lambda st: st.lineno).value if cands else pop
+            key = f"{cls.name}.__init__:percentile({norm(c.args[1])[:40] if len(c.args) > 1 else ''}):population"
+            filters = [norm(cond) for comp in ast.walk(pop) if isinstance(comp, (ast.ListComp, ast.GeneratorExp, ast.SetComp)) for g in comp.generators for cond in g.ifs]
+            if any("not in" in t and "edges_to_ignore" in t for t in filters):
+                rep.ok(RID, key, "the percentile is taken over non-ignored elements", init.loc(c))
+            else:
+                rep.violation(RID, key, f"the percentile is computed over `{norm(pop)[:110]}`, ignored elements included: in node-weighted mode an original edge that carries an "
+                              "attribute of the same name is copied onto the (ignored) edge between the expanded nodes and shifts the threshold", init.loc(c))
+        # trusted sets derived from a percentile
+        for st in walk_no_nested(init.node):
+            if isinstance(st, ast.Assign) and any(dotted(t) == "self.trusted_edges_for_safety" for t in st.targets) and "percentile" in norm(st.value) and \
+                    any(isinstance(x, (ast.ListComp, ast.GeneratorExp, ast.SetComp)) for x in ast.walk(st.value)):
+                n += 1
+                key = f"{cls.name}.__init__:trusted-from-percentile"
+                filters = [norm(cond) for comp in ast.walk(st.value) if isinstance(comp, (ast.ListComp, ast.GeneratorExp, ast.SetComp)) for g in comp.generators for cond in g.ifs]
+                txt = " and ".join(filters)
+                if re.search(r"\] (!= 0|> 0)\b", txt):
+                    rep.ok(RID, key, "edges with flow 0 are never trusted", init.loc(st))
+                else:
+                    rep.violation(RID, key, f"the trusted set built from the percentile (`{txt[:100]}`) can contain edges with flow 0 (percentile 0): safe sequences then force "
+                                  "walks through edges that need not be covered, and the model is infeasible with safe sequences but solved without them", init.loc(st))
+    if n < 3:
+        raise AnalysisError(f"percentile options: only {n} sites found")
+    return n
+
+
+def flow_safe_override_rule(prog: Program, rep, RID: str, cname: str = "kFlowDecomp") -> int:
+    """Documented: flow-safe paths (on by default) override optimize_with_safe_paths.  Where the flow-safe paths are installed, the
+    other safety options are switched off - not answered with a ValueError, which makes a documented option value unusable."""
+    f = prog.own_method(cname, "__init__")
+    site = None
+    for st in ast.walk(f.node):
+        if isinstance(st, ast.If) and any((dotted(c.func) or "").endswith("compute_flow_decomp_safe_paths") for b in st.body for c in ast.walk(b) if isinstance(c, ast.Call)):
+            site = st
+    if site is None:
+        raise AnalysisError(f"{cname}.__init__: the branch installing flow-safe paths was not found")
+    n = 0
+    for opt in ("optimize_with_safe_paths", "optimize_with_safe_sequences"):
+        n += 1
+        key = f"{cname}.__init__:flow-safe-paths-vs-{opt}"
+        raises = [x for x in ast.walk(site) if isinstance(x, ast.If) and x is not site and f"'{opt}'" in norm(x.test) and any(isinstance(b, ast.Raise) for b in x.body)]
+        offs = [x for x in ast.walk(site) if isinstance(x, ast.Assign) and any(isinstance(t, ast.Subscript) and isinstance(t.slice, ast.Constant) and t.slice.value == opt
+                                                                                 for t in x.targets) and isinstance(x.value, ast.Constant) and x.value.value is False]
+        if raises:
+            rep.violation(RID, key, f"with flow-safe paths in use the constructor raises ValueError when `{opt}` is on, although the documentation says flow-safe paths "
+                          "override it: switching a documented option on makes MinFlowDecomp / kFlowDecomp unusable", f.loc(raises[0]))
+        elif offs:
+            rep.ok(RID, key, f"`{opt}` is switched off where flow-safe paths are installed", f.loc(offs[0]))
+        else:
+            raise AnalysisError(f"{cname}.__init__: `{opt}` is neither switched off nor rejected where flow-safe paths are installed")
+    return n
+
